@@ -1776,6 +1776,10 @@ class Transaction(object):
             n_sigs_to_insert = len(self.inputs[tid].signatures)
             for sig in self.inputs[tid].signatures:
                 if not sig.public_key:
+                    # Imported signature of another cosigner: find the key it belongs to
+                    sig_keys = [k for k in self.inputs[tid].keys if verify(txid, sig, k)]
+                    sig.public_key = None if not sig_keys else sig_keys[0]
+                if not sig.public_key:
                     break
                 newsig_pos = pub_key_list.index(sig.public_key.public_byte)
                 if sig_domain[newsig_pos] == '':
